@@ -12,8 +12,8 @@ structure CsvFloatOK (L : Lib) : Prop where
   fin : ∀ b, finite b = true → Json.validNumber (L.fmtFloatF b) = true ∧ Num.litToF64 (L.fmtFloatF b) = b
   nonfin : ∀ b, finite b = false → L.fmtFloatF b = nonFiniteText b
 
-theorem csvCell_ok (L : Lib) (hL : FloatSyntax L) (hC : CsvFloatOK L) (τ : Ty) (v : Value) (hf : fits τ v = true) :
-    ∃ cell, csvCell L τ v = some cell ∧ csvCellOk L v cell = true := by
+theorem csvCell_ok (L : Lib) (hL : FloatSyntax L) (hC : CsvFloatOK L) (hT : TextExact L) (τ : Ty) (v : Value) (hf : fits τ v = true) :
+    ∃ cell, csvCell L τ v = some cell ∧ csvCellOk v cell = true := by
   cases v with
   | null => exact ⟨[], rfl, rfl⟩
   | int i => exact ⟨fmtInt i, rfl, by simp [csvCellOk, intLit_fmtInt]⟩
@@ -25,33 +25,33 @@ theorem csvCell_ok (L : Lib) (hL : FloatSyntax L) (hC : CsvFloatOK L) (τ : Ty) 
       simp [csvCellOk, hb', hC.nonfin b hb']
   | bool b => exact ⟨_, rfl, by simp [csvCellOk]⟩
   | str s => exact ⟨_, rfl, by simp [csvCellOk]⟩
-  | time ns loc => exact ⟨_, rfl, by simp [csvCellOk]⟩
-  | dur ns => exact ⟨_, rfl, by simp [csvCellOk]⟩
+  | time ns loc => exact ⟨_, rfl, by simp [csvCellOk, hT.time ns loc]⟩
+  | dur ns => exact ⟨_, rfl, by simp [csvCellOk, hT.dur ns]⟩
   | list xs => obtain ⟨bs, h, _⟩ := encJson_dec L hL _ τ hf; exact ⟨bs, h, rfl⟩
   | struct xs => obtain ⟨bs, h, _⟩ := encJson_dec L hL _ τ hf; exact ⟨bs, h, rfl⟩
   | tuple xs => obtain ⟨bs, h, _⟩ := encJson_dec L hL _ τ hf; exact ⟨bs, h, rfl⟩
 
-theorem csvCells_ok (L : Lib) (hL : FloatSyntax L) (hC : CsvFloatOK L) : ∀ (ts : List Ty) (vs : List Value),
-    fitsEach ts vs = true → ∃ cells, csvCells L ts vs = some cells ∧ cells.length = vs.length ∧ csvRowOk L vs cells = true
+theorem csvCells_ok (L : Lib) (hL : FloatSyntax L) (hC : CsvFloatOK L) (hT : TextExact L) : ∀ (ts : List Ty) (vs : List Value),
+    fitsEach ts vs = true → ∃ cells, csvCells L ts vs = some cells ∧ cells.length = vs.length ∧ csvRowOk vs cells = true
   | [], [], _ => ⟨[], rfl, rfl, rfl⟩
   | [], _ :: _, h => by simp [fitsEach] at h
   | _ :: _, [], h => by simp [fitsEach] at h
   | t :: ts, v :: vs, h => by
     simp only [fitsEach, Bool.and_eq_true] at h
-    obtain ⟨c, hc, hok⟩ := csvCell_ok L hL hC t v h.1
-    obtain ⟨cs, hcs, hlen, hoks⟩ := csvCells_ok L hL hC ts vs h.2
+    obtain ⟨c, hc, hok⟩ := csvCell_ok L hL hC hT t v h.1
+    obtain ⟨cs, hcs, hlen, hoks⟩ := csvCells_ok L hL hC hT ts vs h.2
     exact ⟨c :: cs, by simp [csvCells, hc, hcs], by simp [hlen], by simp [csvRowOk, hok, hoks]⟩
 
-theorem csvRows_ok (L : Lib) (hL : FloatSyntax L) (hC : CsvFloatOK L) (ns : List Name) (ts : List Ty) (hts : ts ≠ []) :
+theorem csvRows_ok (L : Lib) (hL : FloatSyntax L) (hC : CsvFloatOK L) (hT : TextExact L) (ns : List Name) (ts : List Ty) (hts : ts ≠ []) :
     ∀ rows : List (List Value), rows.all (rowFits ns ts) = true →
-      ∃ cellss, csvRows L ts rows = some (concatRecords cellss) ∧ (∀ r ∈ cellss, r ≠ []) ∧ csvRowsOk L rows cellss = true
+      ∃ cellss, csvRows L ts rows = some (concatRecords cellss) ∧ (∀ r ∈ cellss, r ≠ []) ∧ csvRowsOk rows cellss = true
   | [], _ => ⟨[], rfl, by simp, rfl⟩
   | r :: rs, h => by
     simp only [List.all_cons, Bool.and_eq_true] at h
     obtain ⟨h1, h2⟩ := h
     simp only [rowFits, Bool.and_eq_true, decide_eq_true_eq] at h1
-    obtain ⟨cells, hc, hlen, hok⟩ := csvCells_ok L hL hC ts r h1.2
-    obtain ⟨cellss, hcs, hne, hoks⟩ := csvRows_ok L hL hC ns ts hts rs h2
+    obtain ⟨cells, hc, hlen, hok⟩ := csvCells_ok L hL hC hT ts r h1.2
+    obtain ⟨cellss, hcs, hne, hoks⟩ := csvRows_ok L hL hC hT ns ts hts rs h2
     have hl := fitsEach_length ts r h1.2
     have : cells ≠ [] := by
       intro e; subst e
@@ -66,16 +66,16 @@ theorem csvRows_ok (L : Lib) (hL : FloatSyntax L) (hC : CsvFloatOK L) (ns : List
 
 /-- **the whole `-o csv` output**: it parses, the first record is the header, and every further record is
     its row (scalars as their text, NULL as the empty field) -/
-theorem csvOutput_ok (L : Lib) (hL : FloatSyntax L) (hC : CsvFloatOK L) (ns : List Name) (ts : List Ty)
+theorem csvOutput_ok (L : Lib) (hL : FloatSyntax L) (hC : CsvFloatOK L) (hT : TextExact L) (ns : List Name) (ts : List Ty)
     (rows : List (List Value)) (hns : ns ≠ []) (hlen : ns.length = ts.length)
     (hrows : rows.all (rowFits (withoutQualifiers ns) ts) = true) :
     ∃ bytes cellss, csvOutput L ns ts rows = some bytes ∧
-      Csv.decode bytes = some ((withoutQualifiers ns).map nameBytes :: cellss) ∧ csvRowsOk L rows cellss = true := by
+      Csv.decode bytes = some ((withoutQualifiers ns).map nameBytes :: cellss) ∧ csvRowsOk rows cellss = true := by
   have hts : ts ≠ [] := by
     intro e; subst e; cases ns with
     | nil => exact hns rfl
     | cons _ _ => simp at hlen
-  obtain ⟨cellss, hcs, hne, hok⟩ := csvRows_ok L hL hC (withoutQualifiers ns) ts hts rows hrows
+  obtain ⟨cellss, hcs, hne, hok⟩ := csvRows_ok L hL hC hT (withoutQualifiers ns) ts hts rows hrows
   refine ⟨concatRecords ((withoutQualifiers ns).map nameBytes :: cellss), cellss, by simp [csvOutput, hcs, concatRecords], ?_, hok⟩
   have hq : (withoutQualifiers ns).map nameBytes ≠ [] := by
     cases ns with
